@@ -248,7 +248,40 @@ static void run_integer(Src &s) {
 }
 
 // ------------------------------------------------------------------ floating literals with known answers
+// decimal literals that are not zero but round to zero (smaller than half the smallest subnormal): the correctly
+// rounded value is +0 / -0, returned - not refused (glibc reports the underflow through errno, not through the value)
+static void run_float_underflow(Src &s) {
+  const bool is_double = s.chance(60), neg = s.chance(40);
+  std::string lit;
+  switch (s.below(4)) {
+    case 0: lit = std::to_string(1 + s.below(9)) + "e-" + std::to_string((is_double ? 330 : 50) + s.below(400)); break;
+    case 1: lit = is_double ? "2e-324" : "7e-46"; break;  // just below half of the smallest subnormal (4.94e-324 / 1.4e-45)
+    case 2: lit = "0." + std::string((is_double ? 330 : 50) + s.below(60), '0') + std::to_string(1 + s.below(9)); break;
+    default: lit = "0." + std::string((is_double ? 324 : 46), '0') + "1e-" + std::to_string(1 + s.below(40)); break;
+  }
+  if (neg) lit = "-" + lit;
+  econf_file *kf = nullptr;
+  econf_newKeyFile(&kf, '=', '#');
+  KG g{kf};
+  econf_setStringValue(kf, "F", "v", lit.c_str());
+  g_case.desc = std::string(is_double ? "double" : "float") + " literal '" + lit + "' (rounds to zero)";
+  g_case.tag("float_literal_rounding_to_zero");
+  g_case.nontrivial = true;
+  g_case.shape_hash = fnv(lit, 1717);
+  errno = s.chance(50) ? ERANGE : 0;
+  if (is_double) {
+    double r = 42;
+    econf_err e = econf_getDoubleValue(kf, "F", "v", &r);
+    VF_CHECK(e == ECONF_SUCCESS && r == 0.0 && std::signbit(r) == neg, "float-wrong", "getDouble('" << lit << "') rc=" << e << " value " << r << ", expected " << (neg ? "-0" : "+0"));
+  } else {
+    float r = 42;
+    econf_err e = econf_getFloatValue(kf, "F", "v", &r);
+    VF_CHECK(e == ECONF_SUCCESS && r == 0.0f && std::signbit(r) == neg, "float-wrong", "getFloat('" << lit << "') rc=" << e << " value " << r << ", expected " << (neg ? "-0" : "+0"));
+  }
+}
+
 static void run_float(Src &s) {
+  if (s.chance(4)) return run_float_underflow(s);
   bool is_double = s.chance(55);
   bool neg = s.chance(30);
   // target bit pattern: finite, positive part
